@@ -122,3 +122,5 @@ func feOne(ch *core.Child, item map[string]any, out any) (string, string) {
 	json.Unmarshal(p.R, out)
 	return "post", ""
 }
+
+func hexDecode(s string) ([]byte, error) { return hex.DecodeString(s) }
